@@ -8,6 +8,7 @@ CONSTANTS
   BugC = "coalesce_drops_newest"
   FixC = "none"
   RemoveC = FALSE
+  GenC = FALSE
 VIEW View
 INVARIANT TypeOK
 INVARIANT NoStuck
